@@ -54,8 +54,8 @@ def parseTy : String → Option Ty
   | "bool" => some .bool | "i16" => some .i16 | "i32" => some .i32 | "i64" => some .i64
   | "str" => some .str | "blob" => some .blob | "date" => some .date | "ts" => some .ts
   | "iv" => some .interval
-  | "f64" | "dec" => some .str     -- opaque: the cell is its Display text (`t:<hex>` on the wire)
-  | _ => none
+  | "f64" | "dec" => some .str     -- opaque: the cell is its Display text
+  | s => if s.startsWith "decs" then some .str else none   -- DECIMAL(p, k): opaque text, rescaled to k
 
 def allSomeL {α} : List (Option α) → Option (List α)
   | [] => some []
@@ -114,7 +114,7 @@ def opaqueStatus (ops : List Bool) (orig : List (List Bytes)) (recs : List (List
 
 def importOpaque (o : Opts) (tyNames : List String) (tys : List Ty) (orig : List (List Bytes))
     (file : Bytes) : ImportResult :=
-  let ops := tyNames.map fun n => n == "f64" || n == "dec"
+  let ops := tyNames.map fun n => n == "f64" || n.startsWith "dec"
   if !ops.any id then importCsv o tys file
   else match readCsv o file with
     | none => .error
@@ -124,6 +124,28 @@ def importOpaque (o : Opts) (tyNames : List String) (tys : List Ty) (orig : List
       else match importCsv o tys file with
         | .panic => if st.1 then .unmodelled else .panic
         | r => if st.1 then .error else r
+
+/-- scale of a `decs<k>` column (DECIMAL(p,k)): the import rescales ITS cells to k digits -/
+def colScale (n : String) : Option Nat :=
+  if n.startsWith "decs" then (n.drop 4).toString.toNat? else none
+
+/-- `Decimal::rescale(k)` on a Display text with at most k fraction digits: pad with zeros -/
+def rescaleText (k : Nat) (t : Bytes) : Option Bytes :=
+  let body := match t with | 45 :: r => r | r => r
+  let ip := body.takeWhile (· != 46)
+  let rest := body.dropWhile (· != 46)
+  let fp := rest.drop 1
+  if ip.isEmpty || !allDigits ip || !allDigits fp || (rest.length == 1) then none
+  else if fp.length > k then none
+  else if k = 0 then some t
+  else some ((if t.head? == some 45 then [45] else []) ++ ip ++ [46] ++ fp ++ List.replicate (k - fp.length) 48)
+
+/-- per-column rescale of a table of opaque decimal cells; `none` = cannot be judged -/
+def applyScales (scales : List (Option Nat)) (t : Table) : Option Table :=
+  allSomeL (t.map fun row => allSomeL ((List.zip scales row).map fun (sc, c) =>
+    match sc, c with
+    | some k, some (.str txt) => (rescaleText k txt).map fun x => some (.str x)
+    | _, c => some c))
 
 def answer (line : String) : String :=
   match line.trimAscii.toString.splitOn " " with
@@ -145,8 +167,14 @@ def answer (line : String) : String :=
         | some texts =>
           let names : List Bytes := (List.range tys.length).map fun i => (s!"c{i}").toUTF8.toList
           let file := writeFile o names texts
-          let imp := importOpaque o (tysS.splitOn ",") tys texts file
-          let rt := match imp with | .ok t' => sameBag t t' | _ => false
+          let scales := (tysS.splitOn ",").map colScale
+          let imp := match importOpaque o (tysS.splitOn ",") tys texts file with
+            | .ok rows => (match applyScales scales rows with | some r => .ok r | none => .unmodelled)
+            | e => e
+          -- numeric equality per column: the original cells padded to the column's scale
+          let rt := match imp, applyScales scales t with
+            | .ok t', some t0 => sameBag t0 t'
+            | _, _ => false
           "file:" ++ hexOrDash file ++ " import:" ++ showImport imp ++
             (if rt then " rt:true" else " rt:false why:" ++ whyTag o t texts)
     | some _, none => "unmodelled"
